@@ -9,12 +9,15 @@ expression tokens (Polish notation, fixed arity):
   for<n> / some<n> / every<n>      then n × (<id> <expr>) then the body
   f1:<name> e   f2:<name> e e   f3:<name> e e e
   c:eq|ne|lt|le|gt|ge e e    and e e    or e e    a:+|-|* e e    if e e e
-Answer:  model=<result> spec=<result> mavg=<q> savg=<q> k=<0|1>   (k: trigger of finding F08b)
-result = `_` (empty) | atoms joined by `,` | ERR:<code>;  mavg/savg: the exact quotient of a
-top-level fn:avg (`-` otherwise): E | I:<num>/<den> | D:<d-atom>/<den> | ERR:<code>.
+        q:<m>/<k> (xs:decimal m / 10^k)   u:<hex>… (xs:untypedAtomic)   n:<i> (node, pre-order index)
+        d:-0 (negative zero);  doc=<hex>…|<hex>…|- … the string values of the nodes (`-` = empty, `_` = no document)
+Answer:  model=<result> spec=<result> k=<0|1> q=<0|1> lazy=<result> errs=<codes|_>
+         (k, q: triggers of the findings F08b, F08q; lazy / errs: the permitted outcomes, Spec.Permitted)
+result = `_` (empty) | atoms joined by `,` | ERR:<code>.
+Kernel probes:  rnd=<n>/<d> → the double nearest to n/d;  sig28=<n>/<d> → n/d at 28 significant digits.
 -/
 import EPV.Proto
-import EPV.Spec.FOSeq
+import EPV.Spec.FOSeqLazy
 open EPV.Proto EPV.Seq
 
 def hexVal (c : Char) : Option Nat :=
@@ -31,6 +34,7 @@ def parseStr (s : String) : Option String :=
 
 def parseD (s : String) : Option D :=
   if s == "nan" then some .nan else if s == "inf" then some .pinf else if s == "-inf" then some .ninf
+  else if s == "-0" then some .nzero
   else match s.splitOn "/" with
     | [m, k] => do let m ← int? m; let k ← nat? k; pure (.fin m k)
     | _ => none
@@ -39,6 +43,12 @@ def parseAtom (s : String) : Option Atom :=
   if s.startsWith "i:" then (int? (s.drop 2).toString).map .int
   else if s.startsWith "d:" then (parseD (s.drop 2).toString).map .dbl
   else if s.startsWith "s:" then (parseStr (s.drop 2).toString).map .str
+  else if s.startsWith "u:" then (parseStr (s.drop 2).toString).map .untyped
+  else if s.startsWith "n:" then (nat? (s.drop 2).toString).map .node
+  else if s.startsWith "q:" then
+    match (s.drop 2).toString.splitOn "/" with
+    | [m, k] => do let m ← int? m; let k ← nat? k; pure (.dec m k)
+    | _ => none
   else if s == "b:1" then some (.bool true)
   else if s == "b:0" then some (.bool false)
   else none
@@ -150,14 +160,21 @@ def normD : Int → Nat → Int × Nat
   | m, 0 => (m, 0)
   | m, k + 1 => if m % 2 = 0 then normD (m / 2) k else (m, k + 1)
 
+def normDec : Int → Nat → Int × Nat
+  | m, 0 => (m, 0)
+  | m, k + 1 => if m % 10 = 0 then normDec (m / 10) k else (m, k + 1)
+
 def showD : D → String
-  | .nan => "d:nan" | .pinf => "d:inf" | .ninf => "d:-inf"
+  | .nan => "d:nan" | .pinf => "d:inf" | .ninf => "d:-inf" | .nzero => "d:-0"
   | .fin m k => let (m', k') := normD m k; s!"d:{m'}/{k'}"
 
 def showAtom : Atom → String
   | .int n => s!"i:{n}"
   | .dbl d => showD d
   | .str s => "s:" ++ ".".intercalate (s.toList.map fun c => hexOf c.toNat)
+  | .untyped s => "u:" ++ ".".intercalate (s.toList.map fun c => hexOf c.toNat)
+  | .node i => s!"n:{i}"
+  | .dec m k => let (m', k') := normDec m k; s!"q:{m'}/{k'}"
   | .bool b => if b then "b:1" else "b:0"
 
 def showErr : Err → String
@@ -170,12 +187,6 @@ def showR : R → String
   | .ok [] => "_"
   | .ok l => ",".intercalate (l.map showAtom)
 
-def showAvg : Except Err AvgRes → String
-  | .error e => showErr e
-  | .ok .empty => "E"
-  | .ok (.intQ n d) => s!"I:{n}/{d}"
-  | .ok (.dblQ n d) => s!"D:{showD n}/{d}"
-
 def parseVars (s : String) : Option Vars :=
   if s == "_" || s == "" then some [] else
   (s.splitOn ";").mapM fun entry =>
@@ -187,24 +198,48 @@ def parseVars (s : String) : Option Vars :=
       pure (id, atoms)
     | _ => none
 
+def parseDoc (s : String) : Option (List String) :=
+  if s == "_" || s == "" then some [] else (s.splitOn "|").mapM fun x => if x == "-" then some "" else parseStr x
+
 def answer (line : String) : String :=
   let fs := fields line
+  -- kernel probes: rnd=<n>/<d>  and  sig28=<n>/<d>
+  if (field fs "rnd") != "" then
+    match (field fs "rnd").splitOn "/" with
+    | [n, d] => match int? n, nat? d with
+      | some n, some d => showD (rnd n d)
+      | _, _ => "bad-rnd"
+    | _ => "bad-rnd"
+  else if (field fs "sig28") != "" then
+    match (field fs "sig28").splitOn "/" with
+    | [n, d] => match int? n, nat? d with
+      | some n, some d => let r := roundSig28 n d; let (m, k) := normDec r.1 r.2; s!"q:{m}/{k}"
+      | _, _ => "bad-sig28"
+    | _ => "bad-sig28"
+  else
   let toks := (field fs "expr").splitOn "~"
-  match parseE (toks.length + 1) toks, parseVars (field fs "vars"), nat? (field fs "pos"), nat? (field fs "size") with
-  | some (e, []), some vars, some pos, some size =>
+  match parseE (toks.length + 1) toks, parseVars (field fs "vars"), nat? (field fs "pos"), nat? (field fs "size"),
+      parseDoc (field fs "doc") with
+  | some (e, []), some vars, some pos, some size, some doc =>
     let itemS := field fs "item"
     match (if itemS == "-" then some none else (parseAtom itemS).map some) with
     | none => "bad-item"
     | some item =>
-      let c : Ctx := { item := item, pos := pos, size := size, vars := vars }
+      let c : Ctx := { item := item, pos := pos, size := size, vars := vars, doc := doc }
       let m := parseEval e c
-      let s := Spec.sem e c
-      let (ma, sa) := match e with
-        | .fn1 .avg a => (showAvg ((eval a c).bind fnAvg), showAvg ((Spec.sem a c).bind Spec.fnAvg))
-        | _ => ("-", "-")
-      s!"model={showR m} spec={showR s} mavg={ma} savg={sa} k={if e.loopVarInRange then 1 else 0}"
-  | some (_, _ :: _), _, _, _ => "bad-expr-trailing"
-  | none, _, _, _ => "bad-expr"
-  | _, _, _, _ => "bad-line"
+      let s := Spec.sem Spec.foSum e c
+      -- trigger of finding F08q: a top-level fn:sum / fn:avg whose compensated sum differs
+      let q := match e with
+        | .fn1 .sum a | .fn2 .sum a _ => (match Spec.sem Spec.foSum a c with | .ok v => !Spec.sumAgrees v | _ => false)
+        | .fn1 .avg a => (match Spec.sem Spec.foSum a c with | .ok v => !Spec.avgAgrees v | _ => false)
+        | _ => false
+      -- the outcomes XPath permits (Spec.Permitted): the lazy value, the reachable error codes
+      let lzv := (Spec.lz Spec.foSum e c).force
+      let cs := (Spec.codes Spec.foSum e c).eraseDups
+      let errs := if cs.isEmpty then "_" else ",".intercalate (cs.map showErr)
+      s!"model={showR m} spec={showR s} k={if e.loopVarInRange then 1 else 0} q={if q then 1 else 0} lazy={showR lzv} errs={errs}"
+  | some (_, _ :: _), _, _, _, _ => "bad-expr-trailing"
+  | none, _, _, _, _ => "bad-expr"
+  | _, _, _, _, _ => "bad-line"
 
 def main : IO Unit := mainLoop answer
